@@ -310,11 +310,21 @@ Fixpoint reify (n : node) : obj :=
          (fix go (l : list (string * node)) : list (string * obj) :=
             match l with [] => [] | kv :: r => match kv with (k, v) => (k, reify v) :: go r end end) members)
   | NBinop mid cname ln rn l r =>
-      (* setattr(self, ln, left); setattr(self, rn, right): one entry when the names coincide *)
-      OInst cname info_mo
-        (("id", OInt mid) ::
-         (if String.eqb ln rn then [(ln, reify r)] else [(ln, reify l); (rn, reify r)]))
-  | NUnop mid cname pn a => OInst cname info_mo [("id", OInt mid); (pn, reify a)]
+      match compound_idf with
+      | Some fs =>
+          (* declared identifier fields: the getattr view through the properties left / right *)
+          OInst cname (info_fields fs true) [("id", OInt mid); ("left", reify l); ("right", reify r)]
+      | None =>
+          (* setattr(self, ln, left); setattr(self, rn, right): one entry when the names coincide *)
+          OInst cname info_mo
+            (("id", OInt mid) ::
+             (if String.eqb ln rn then [(ln, reify r)] else [(ln, reify l); (rn, reify r)]))
+      end
+  | NUnop mid cname pn a =>
+      match modified_idf with
+      | Some fs => OInst cname (info_fields fs true) [("id", OInt mid); ("prior", reify a)]
+      | None => OInst cname info_mo [("id", OInt mid); (pn, reify a)]
+      end
   | NModel mid lbl cls cargs attrs =>
       OInst "Model" info_mo
         (("id", OInt mid) :: ("_label", OStr lbl) :: ("cls", OClass cls) ::
@@ -357,6 +367,16 @@ Fixpoint has_prior (n : node) : bool :=
   | _ => false
   end.
 
+Definition is_log_gaussian (f : family) : bool := match f with FLogGaussian => true | _ => false end.
+
+(* str.isdigit() on ASCII keys; the positional items of a Collection are stored under "0", "1", ... *)
+Definition is_digit (c : ascii) : bool := (48 <=? nat_of_ascii c)%nat && (nat_of_ascii c <=? 57)%nat.
+Fixpoint all_digits (s : string) : bool :=
+  match s with EmptyString => true | String c r => is_digit c && all_digits r end.
+Definition isdigit (s : string) : bool := match s with EmptyString => false | _ => all_digits s end.
+Definition count_digit_keys {A} (d : list (string * A)) : Z :=
+  Z.of_nat (List.length (filter (fun kv => isdigit (fst kv)) d)).
+
 Fixpoint basename_aux (s acc : string) : string :=
   match s with
   | EmptyString => acc
@@ -385,10 +405,8 @@ Definition same_prior (l r : node) : bool :=
 Fixpoint reload (n : node) : option node :=
   match n with
   | NPrior pid fam lo hi mean sigma =>
-      match fam with
-      | FLogGaussian => None        (* Prior.dict() has no mean/sigma: the constructor call fails *)
-      | _ => Some n
-      end
+      (* without its own dict(), Prior.dict() writes no mean/sigma and the constructor call fails *)
+      if is_log_gaussian fam && negb log_gaussian_dict then None else Some n
   | NFloat _ | NInt _ | NBool _ | NStr _ | NNone => Some n
   | NTuple mid ms =>
       match all_some ((fix go (l : list (string * node)) : list (string * option node) :=
@@ -423,7 +441,9 @@ Fixpoint reload (n : node) : option node :=
   | NColl mid _ attrs =>
       match all_some ((fix go (l : list (string * node)) : list (string * option node) :=
                          match l with [] => [] | kv :: r => match kv with (k, v) => (k, reload v) :: go r end end) attrs) with
-      | Some attrs' => Some (NColl mid 0 attrs')          (* item_number is not serialised *)
+      | Some attrs' =>
+          (* item_number is not serialised; from_dict either leaves 0 or recounts the positional keys *)
+          Some (NColl mid (if reload_restores_item_number then count_digit_keys attrs' else 0) attrs')
       | None => None
       end
   | NInst cname cargs ex attrs =>
